@@ -29,6 +29,8 @@ CHECKS = {
                 note="Trusted base: strace's injection, kernel rename atomicity. Power loss is outside the statement (no fsync in the code)."),
     "C10": dict(level="fault_enumeration", tech="runtime monitoring over save points: recording wrapper around the real JsonDataStore copies every persisted snapshot of a conformance history; a fresh runner is started on each copy and compared field by field (decoded values) with the live runner; prepared store files for states that exist only between two runner steps",
                 text="Every persisted snapshot of every history (explicit saves at every position + persist loop) is a restart point; arbitrary JSON payloads incl. floats with 17 significant digits.", ref="4 C10"),
+    "C11": dict(level="exploration", tech="runtime monitoring: offline oracle keyed on the Shutdown return event over the event log + recording store (last snapshot that reached the store vs reported state at return), concurrent clients and in-flight slow saves; heartbeat-clock monitor for the persist loop",
+                text="States at shutdown begin from conformance prefixes x graceful/forced x racing schedule/cancel/save clients (also over HTTP: 503) x slow saves; persist loop checked with a 10 s heartbeat limit for its 3 s period.", ref="4 C11"),
     "C12": dict(level="exploration", tech="runtime monitoring: before/after oracle around every SaveToStore over generated job populations on the real JsonDataStore + FileOutputStore (API view, store file, recursive hash of the log tree)",
                 text="retention_count x retention_period x loaded (shuffled file order) and live jobs in every state x removed pipelines x repeated saves; ages have >= 7 min margins, a 1 ms period makes live unfinished jobs 'too old'.", ref="4 C12"),
     "C13": dict(level="exploration", tech="Go race detector (-race, implies checkptr) over measured-coverage stress histories; report blocks counted in GORACE log files and de-duplicated by frame pair",
